@@ -1,5 +1,4 @@
-import ScVerif.C06.ValueLemmas
-import ScVerif.C06.PropsValue
+import ScVerif.C06.ValuePull
 /-
 Model of a trait-level adapter: `(*Model).pullWasteRecordsWrapper` of `pkg/trait/wastepb/model.go`, the
 body of `ModelServer.PullWasteRecords`.  Unless `updates_only`, it first replays history under the
@@ -35,29 +34,5 @@ def wastePull (mask : Option (List Path)) (updatesOnly : Bool) (hist : List Fiel
         (evs.map (fun v => ⟨some v, 0, false, false⟩)) with
   | some a, some b => some (a.map some ++ b.map (·.value))
   | _, _ => none
-
-theorem filterAll_eq (mask : Option (List Path)) (h : Proper mask) :
-    ∀ l : List Fields, filterAll mask l = some (l.map (projectMask mask))
-  | [] => rfl
-  | r :: rest => by
-    simp only [filterAll, C06_projection mask r h, filterAll_eq mask h rest, List.map_cons]
-
-theorem proper_none : Proper (none : Option (List Path)) := fun _ e => by cases e
-
-theorem projectMask_none (fs : Fields) : projectMask none fs = fs := rfl
-
-theorem wastePull_eq (mask : Option (List Path)) (updatesOnly : Bool) (hist : List Fields) (cur : Option Fields)
-    (evs : List Fields) (h : Proper mask) :
-    wastePull mask updatesOnly hist cur evs
-      = some (((if updatesOnly then [] else wasteWindow hist).map (fun r => some (projectMask mask r)))
-          ++ (rawValueStream ⟨mask, updatesOnly, false, none⟩ (cur.map (fun v => (v, 0)))
-                (evs.map (fun v => ⟨some v, 0, false, false⟩))).map (fun c => projectOpt mask c.value)) := by
-  unfold wastePull
-  have hv := C06_value_pull_projection ⟨mask, updatesOnly, false, none⟩ (cur.map (fun v => (v, 0)))
-    (evs.map (fun v => ⟨some v, 0, false, false⟩)) h
-  rw [hv, newResponseFilter_single]
-  cases updatesOnly with
-  | true => simp [projectValueChange]
-  | false => simp [filterAll_eq mask h, projectValueChange, List.map_map, Function.comp_def]
 
 end ScVerif.C06
